@@ -161,6 +161,8 @@ func opDHGen(w *World, s *Step) (string, string) {
 		if x == nil {
 			return res.class(), abs
 		}
+		held, _ := w.ext["held_exponents"].([]*big.Int)
+		w.ext["held_exponents"] = append(held, x) // read again when the task ends (C18)
 		return fmt.Sprintf("%s:%x", res.class(), fnv1a(0, x.Bytes())), abs
 	}
 	switch {
